@@ -184,6 +184,18 @@ func (c *Ctx) role0(name string) *ssa.Function {
 				return cal
 			}
 		}
+		// the printer split into "the block" and "the cgo import": the method File.Render calls is the
+		// one whose helpers read the table
+		for _, cal := range c.staticCallees(c.method("File", "Render")) {
+			if !(isFileMethod(c, cal) && c.writerParam(cal) != nil && cal.Signature.Params().Len() == 1) {
+				continue
+			}
+			for _, h := range c.staticCallees(cal) {
+				if isFileMethod(c, h) && c.writerParam(h) != nil && readsImports(h) {
+					return cal
+				}
+			}
+		}
 		// reached through a function value (a list of section writers): the one unexported File method
 		// with a writer parameter that reads the import table
 		var found []*ssa.Function
